@@ -293,9 +293,23 @@ def fstring_body(quote: str, raw: bool) -> str:
     return "(?:" + "|".join(alts) + ")*"
 
 
-# literal text of a format spec up to a nested replacement field or the end of the field (braces are never doubled here)
-SpecLBrace = r"[^{}]*\{"
-SpecRBrace = r"[^{}]*\}"
+MAX_FIELD_NESTING = 3  # a replacement field, one in its format spec, one in that one's spec: as deep as CPython allows
+
+
+def spec_patterns(quote: str) -> str:
+    """Literal text of a format spec up to a nested replacement field or the end of the field.
+
+    Braces are never doubled here, and the text cannot run past the quote that closes the string.
+    """
+    q = quote[:1]
+    if not q:
+        body = r"[^{}]*"
+    elif len(quote) == 3:
+        body = rf"(?:[^{{}}{q}]|{q}(?!{q}{q}))*"
+    else:
+        body = rf"[^{{}}{q}]*"
+    return choice(LBrace=body + r"\{", RBrace=body + r"\}")
+
 
 tabsize = 8
 
@@ -546,8 +560,7 @@ def next_psuedo_matches(state: TokenizerState) -> TokenInfo | None:
             state.parenlev -= 1
         elif token == ":" and state.in_braces() and state.at_parenlev():
             quote = next((p.quote for p in reversed(state.end_progs) if p.quote), "")  # a spec may span lines in '''/"""
-            pattern = choice(LBrace=SpecLBrace, RBrace=SpecRBrace)
-            state.add_prog(start + 1, end, mode=ModeInColon(state.parenlev), pattern=pattern, quote=quote)
+            state.add_prog(start + 1, end, mode=ModeInColon(state.parenlev), pattern=spec_patterns(quote), quote=quote)
         token_type = Token.OP
     elif match.lastgroup == "End":  # // continuation
         state.continued = True
@@ -598,6 +611,13 @@ def handle_fstring_progs(state: TokenizerState, endprog: EndProg) -> Iterator[To
         if (middle_end > state.pos) or (endprog.text):  # has buffer
             yield state.prog_token(middle_end, Token.FSTRING_MIDDLE)
         if endmatch.lastgroup == "LBrace":
+            nesting = 0
+            for prog in reversed(state.end_progs):  # replacement fields open in this literal
+                if isinstance(prog.mode, ModeMiddle):
+                    break
+                nesting += isinstance(prog.mode, ModeInBraces)
+            if nesting >= MAX_FIELD_NESTING:
+                raise TokenError("f-string: expressions nested too deeply", (state.lnum, state.pos))
             yield TokenInfo(
                 Token.OP,
                 "{",
